@@ -623,6 +623,80 @@ static void run_case(const vh::Case& c)
       out(std::string("valid=") + (rp->is_valid() ? "1" : "0") + " msg=" +
           hex(rp->message(std::stoull(vh::arg(w, "cl", "0")))));
     }
+    else if (op == "encfeed-req" || op == "encfeed-resp")
+    {
+      if (!rx) { out("bad-op"); continue; }
+      std::string v(unhex(vh::arg(w, "v", "3131")));
+      std::string hs(unhex(vh::arg(w, "hs", "-")));
+      std::string body(unhex(vh::arg(w, "b", "-")));
+      std::string msg;
+      if (op == "encfeed-req")
+      {
+        std::string u(unhex(vh::arg(w, "u", "-")));
+        std::unique_ptr<tx_request> rq;
+        std::string mid(vh::arg(w, "mid"));
+        if (!mid.empty())
+          rq.reset(new tx_request(static_cast<request_method::id>(std::stoi(mid)), u, hs, v[0], v[1]));
+        else
+          rq.reset(new tx_request(std::string_view(unhex(vh::arg(w, "m", "-"))), u, hs, v[0], v[1]));
+        for (auto& e : vh::splitc(vh::arg(w, "addid", "-"), ','))
+        {
+          auto kv = vh::splitc(e, ':');
+          rq->add_header(static_cast<header_field::id>(std::stoi(kv.at(0))), unhex(kv.at(1)));
+        }
+        for (auto& e : vh::splitc(vh::arg(w, "add", "-"), ','))
+        {
+          auto kv = vh::splitc(e, ':');
+          rq->add_header(std::string_view(unhex(kv.at(0))), unhex(kv.at(1)));
+        }
+        msg = rq->message(body.size());
+      }
+      else
+      {
+        int st = std::stoi(vh::arg(w, "st", "200"));
+        std::string rs(vh::arg(w, "rs", "default"));
+        std::unique_ptr<tx_response> rp;
+        if (rs == "default")
+          rp.reset(new tx_response(static_cast<response_status::code>(st), hs));
+        else
+          rp.reset(new tx_response(std::string_view(unhex(rs)), st, hs));
+        rp->set_major_version(v[0]);
+        rp->set_minor_version(v[1]);
+        for (auto& e : vh::splitc(vh::arg(w, "addid", "-"), ','))
+        {
+          auto kv = vh::splitc(e, ':');
+          rp->add_header(static_cast<header_field::id>(std::stoi(kv.at(0))), unhex(kv.at(1)));
+        }
+        for (auto& e : vh::splitc(vh::arg(w, "add", "-"), ','))
+        {
+          auto kv = vh::splitc(e, ':');
+          rp->add_header(std::string_view(unhex(kv.at(0))), unhex(kv.at(1)));
+        }
+        msg = rp->message(body.size());
+      }
+      if (vh::arg(w, "chunked", "0") != "1")
+        msg += body;
+      rx->feed(msg, true);
+    }
+    else if (op == "encfeed-chunk")
+    {
+      // encfeed-chunk d=<hex> ext=<hex>
+      if (!rx) { out("bad-op"); continue; }
+      std::string d(unhex(vh::arg(w, "d", "-")));
+      chunk_header<1024, 8, false> h(d.size(), unhex(vh::arg(w, "ext", "-")));
+      rx->feed(h.to_string() + d + "\r\n", true);
+    }
+    else if (op == "encfeed-last")
+    {
+      if (!rx) { out("bad-op"); continue; }
+      last_chunk lc(unhex(vh::arg(w, "ext", "-")), unhex(vh::arg(w, "tr", "-")));
+      for (auto& e : vh::splitc(vh::arg(w, "add", "-"), ','))
+      {
+        auto kv = vh::splitc(e, ':');
+        lc.add_trailer(std::string_view(unhex(kv.at(0))), unhex(kv.at(1)));
+      }
+      rx->feed(lc.to_string(), true);
+    }
     else if (op == "chunkhdr")
     {
       chunk_header<1024, 8, false> h(std::stoull(w.at(1)), unhex(w.at(2)));
